@@ -9,7 +9,7 @@ SPEC = {
         "Go-side projection of tokens to position-free terms (go/cmd/c20/dump.go) and the Go-side round-trip comparison `norm(Tokenize(Serialize(ts))) == norm(ts)`",
         "valid UTF-8 sources only: model strings are code-point lists (utf8 encode/decode of Go's range loops is trusted)",
     ],
-    "not_modelled": ["Serialize of lists containing parse-error tokens (outside the quantifier; the model ports it but it is not compared)",
+    "not_modelled": ["compound round trip of DECLARATIONS is evaluated per case, not proved (C20_compound_roundtrip_statement)", "Serialize of lists containing parse-error tokens (outside the quantifier; the model ports it but it is not compared)",
                      "float32 value of numeric tokens (function of the representation, strconv)"],
     "codes": {"1": "Go round trip failed: Tokenize(Serialize(ts)) differs from ts on an observable the property fixes",
               "2": "token list not error free (skipped)",
@@ -17,13 +17,18 @@ SPEC = {
               "4": "model bytes differ from Go's Serialize but both round-trip (harmless rewrite, skipped)",
               "5": "specification tokenizer and parser.Tokenize disagree on the source text",
               "6": "serializer model panics / does not round-trip where Go does",
-              "7": "token list returned by parser.Tokenize is outside wf_tokens (the domain of theorem C20_roundtrip)"},
-    "theorems_for_kind": {k: "C20_roundtrip (norm (tokenize (serialize ts)) = norm ts for all wf_tokens ts), C20_bad_pairs_complete" for k in
-                          ["corpus", "pairs", "triples", "contents", "contents-random", "soup", "text", "suite"]},
+              "7": "token list returned by parser.Tokenize is outside wf_tokens (the domain of theorem C20_roundtrip)",
+              "8": "Go compound round trip failed: a parsed rule / declaration serialized by its serializeTo parses back to something else (kind, at-keyword / name, prelude / value, block present or absent and its contents, !important)",
+              "9": "model of the compound serializers (Css/SerCompound.v) returns other bytes than QualifiedRule / AtRule / Declaration .serializeTo",
+              "10": "specification reading (RetokSpec.tokenize + SerCompound.read_back) of the serialized compound differs from the compound"},
+    "theorems_for_kind": dict({k: "C20_roundtrip (norm (tokenize (serialize ts)) = norm ts for all wf_tokens ts), C20_bad_pairs_complete" for k in
+                               ["corpus", "pairs", "triples", "contents", "contents-random", "soup", "text", "suite"]},
+                              compound="C20_rule_tokenizes_back + C20_compound_roundtrip_partial (a well-formed rule serialized by the model of its serializeTo tokenizes back to at-keyword, prelude, block or `;` and reads back as itself), C20_empty_block_is_not_statement; declarations: C20_compound_roundtrip_statement evaluated on the case"),
+    "rule_compound": "compound stream: exhaustive at-keyword x separator x first prelude token x rule end (`;`, `{}`, `{ }`, filled / unclosed block, end of input), last prelude token x block, declaration name x first / last value token x !important spelling, plus 30 000 random stylesheets / declaration lists / block contents (nested rules, empty blocks, at-rules with and without blocks) parsed by ParseStylesheet / ParseRuleList / ParseDeclarationList / ParseBlocksContents / ParseOneDeclaration in the four skip modes; contents of rules parsed again; every rule / declaration with error-free tokens is serialized by its serializeTo and parsed back",
     "rule": "one SplitMix64 seed; Go-side search over all adjacent token pairs / triples (kind x spelling, exhaustive), identifier/string/url/unit contents over all code-point classes (exhaustive to length 2-3, random to 9), nested soups, random text, the css-parsing-tests inputs and their single-rune deletions (1.7 M inputs, every Go round-trip failure is a case); a seeded reservoir sample of the passing inputs is evaluated by the Coq model; non-trivial = at least two tokens or a serialization different from the source; distinct by (mode, source)",
 }
 MANIFEST = {
-    "text": "Coq theorems, all inputs: for every source text whose tokenisation has no parse-error token, the serializer model returns and its output tokenizes back to the same component values up to comments/positions (C20_roundtrip_source; C20_roundtrip over all well-formed token lists; C20_bad_pairs_complete: the separator logic is complete for all adjacent tokens; per-consumer round trips), over an executable model of css/parser/serialize.go and a specification-level CSS Syntax 3 tokenizer; both are tied to /repo on every run: Go's own Tokenize(Serialize(ts)) round trip on ~1.7 M generated inputs, model bytes = Serialize bytes and specification tokenizer = parser.Tokenize on a sample, evaluated inside Coq (vm_compute)",
+    "text": "Coq theorems, all inputs: (parsed rules: C20_rule_tokenizes_back: a serialized qualified rule / at-rule tokenizes back to its at-keyword, prelude and {} block or `;`; declarations and the reading back by a specification parser are evaluated per case on ~118 000 compounds parsed by /repo per run) for every source text whose tokenisation has no parse-error token, the serializer model returns and its output tokenizes back to the same component values up to comments/positions (C20_roundtrip_source; C20_roundtrip over all well-formed token lists; C20_bad_pairs_complete: the separator logic is complete for all adjacent tokens; per-consumer round trips), over an executable model of css/parser/serialize.go and a specification-level CSS Syntax 3 tokenizer; both are tied to /repo on every run: Go's own Tokenize(Serialize(ts)) round trip on ~1.7 M generated inputs, model bytes = Serialize bytes and specification tokenizer = parser.Tokenize on a sample, evaluated inside Coq (vm_compute)",
     "note": "Trusted: Coq kernel (vm_compute), Go harness + hook css/parser/verif_export_c20.go, UTF-8 codec (model strings are code points), the hand-ported bad-pairs table (tied by the exhaustive pairs stream). Not modelled: Serialize of lists containing parse-error tokens (outside the quantifier), float32 values.",
     "technique": "Coq proof over executable model + vm_compute correspondence with the Go implementation",
 }
